@@ -2,6 +2,9 @@
 # (rt.N(quick, thorough) per sub-check, per shard); this table only says how
 # to build and shard.
 CHECKS = {
+    "C03": dict(pkg="./c03", shards=16),
+    "C04": dict(pkg="./c04", shards=16),
+    "C05": dict(pkg="./c05", shards=16),
     "C01": dict(pkg="./c01", shards=16),
     "C02": dict(pkg="./c02", shards=16),
 }
